@@ -45,3 +45,71 @@ NOT_APPLICABLE = {
 for _p in [f"C{i:02d}" for i in range(1, 20)]:
     if _p not in REGISTRY and _p not in NOT_APPLICABLE:
         NOT_APPLICABLE[_p] = _PENDING
+
+_POW = ("f64::powf -> grid model: uninterpreted function on {0,1/4,1/2,3/4,1} constrained by the contract of x^p "
+        "(0->0, 1->1, strictly increasing, in (0,1), <= x for p>=1, >= x for p<=1)")
+REGISTRY["C19"] = {
+    "level": "model_checking",
+    "explanation": "Bounded model checking of the compiled Strategies::distance; profiles on the quarter grid, exponent symbolic "
+                   "in [2^-10, 64]; libm powf is replaced by an uninterpreted function constrained by its contract.",
+    "assumptions": ["powf satisfies the stated contract on the grid for p in [2^-10, 64] (true for IEEE libm: no underflow/rounding to 0 or 1 in that range)",
+                    "Kani/CBMC trusted; games built directly through private fields"],
+    "harnesses": [
+        H("c19_distance_2x2_p_ge_1", f"{LIB}::c19", "quick", functions=["Strategies::distance"], stubs=[_POW], playback=True,
+          bounds="one 2-action infoset per player, probabilities k/4, p any f64 in [1,64]; unwind 5",
+          role="not NaN, in [0,1], bitwise symmetric, zero iff profiles equal"),
+        H("c19_distance_2x2_p_lt_1", f"{LIB}::c19", "quick", functions=["Strategies::distance"], stubs=[_POW], playback=True,
+          bounds="as above, p any f64 in [2^-10,1)", role="not NaN, >= 0, symmetric, zero iff equal (upper bound checked separately)"),
+        H("c19_distance_2x2_p_lt_1_upper_bound", f"{LIB}::c19", "quick", functions=["Strategies::distance"], stubs=[_POW], playback=True,
+          bounds="as above, p any f64 in [2^-10,1)", role="distance <= 1 for exponents below one"),
+        H("c19_distance_3x2_p_lt_1_upper_bound", f"{LIB}::c19", "quick", functions=["Strategies::distance"], stubs=[_POW], playback=True,
+          bounds="player one 3 actions k/4, player two 2 actions; p any f64 in [2^-10,1)", role="distance <= 1 for exponents below one (recorded known finding)"),
+        H("c19_distance_player_without_decisions", f"{LIB}::c19", "quick", functions=["Strategies::distance"], stubs=[_POW], playback=True,
+          bounds="player two has only a single-action infoset; player one 2 actions k/4; p in [2^-10,64]",
+          role="player without multi-action infoset: distance is 0, never NaN"),
+        H("c19_panics_on_bad_exponent", f"{LIB}::c19", "quick", functions=["Strategies::distance"], expect_fail=["*"],
+          bounds="p any f64 with !(p > 0): negative, zero, -0, NaN, -inf", role="documented panic fires for every non-positive exponent"),
+        H("c19_panics_on_different_games", f"{LIB}::c19", "quick", functions=["Strategies::distance", "Game::eq"], expect_fail=["*"],
+          bounds="two structurally identical games at different addresses", role="documented panic fires for profiles of different games"),
+        H("c19_distance_3x2_p_ge_1", f"{LIB}::c19", "thorough", functions=["Strategies::distance"], stubs=[_POW], playback=True,
+          bounds="player one 3 actions k/4, player two 2 actions; p in [1,64]", role="all assertions, 3-action infoset"),
+        H("c19_distance_3x2_p_lt_1", f"{LIB}::c19", "thorough", functions=["Strategies::distance"], stubs=[_POW], playback=True,
+          bounds="player one 3 actions k/4, player two 2 actions; p in [2^-10,1)", role="all but the upper bound, 3-action infoset"),
+    ],
+}
+MANIFEST_TEXT["C19"] = {
+    "engine": "kani",
+    "technique": "bounded model checking (Kani/CBMC SAT) of the compiled Strategies::distance; powf abstracted by contract",
+    "text": "The solver decides, for all quarter-grid profile pairs and all exponents in [2^-10,64] at once, that distance never returns NaN, stays in [0,1] (p>=1), is bitwise symmetric, is zero exactly for equal profiles, is 0 for a player without decisions, and that both documented panics fire for every non-positive/NaN exponent and for different games. Bounded: <= 3 actions, quarter grid.",
+    "note": "powf is an uninterpreted function under its contract (stated in the evidence); CBMC/Kani trusted. The upper bound for exponents below one is a recorded known finding (documented as 'only a valid distance if p >= 1').",
+}
+
+REGISTRY["C13"] = {
+    "level": "model_checking",
+    "explanation": "Bounded model checking of NamedStrategyIter / NamedStrategyActionIter (next and size_hint), as_named and the "
+                   "from_named_eq round trip on directly constructed tables; shapes and zero patterns symbolic.",
+    "assumptions": ["Kani/CBMC trusted; tables built directly (the iterators read only tables and probabilities)"],
+    "harnesses": [
+        H("c13_infoset_iter_len_and_order", f"{LIB}::c13", "quick",
+          functions=["NamedStrategyIter::{new,next,size_hint}"],
+          bounds="multi-action infosets: any contiguous sub-list of [2 actions, 3 actions]; 0..2 single-action infosets; unwind 6",
+          role="advertised exact number of infosets == infosets still to come at every prefix; table order, multi first, each once"),
+        H("c13_action_iter_len_and_items", f"{LIB}::c13", "quick",
+          functions=["NamedStrategyIter::next", "NamedStrategyActionIter::{next,size_hint}"],
+          bounds="infosets with 2 and 3 actions, either one inspected; 5 probabilities any f64 in [0,1] (every zero pattern); unwind 6",
+          role="advertised exact number of actions == actions still to come at every prefix; exactly the positive actions, in order, bit-identical probabilities of this infoset"),
+        H("c13_single_action_items", f"{LIB}::c13", "quick",
+          functions=["NamedStrategyIter::next", "NamedStrategyActionIter::{next,size_hint}"],
+          bounds="two single-action infosets, either one inspected", role="single-action infoset listed with its only action at probability one; lengths 1 then 0"),
+        H("c13_round_trip_from_named_eq", f"{LIB}::c13", "quick",
+          functions=["Strategies::as_named", "Game::from_named_eq", "Game::strat_into_box_slow", "NamedStrategyIter::next", "NamedStrategyActionIter::next"],
+          bounds="player one: one 2-action infoset + 1 single-action infoset; player two: one 2-action infoset; probabilities k/4; unwind 4",
+          role="from_named_eq(as_named(s)) == s bitwise; as_named pairs each player's tables with that player's probabilities"),
+    ],
+}
+MANIFEST_TEXT["C13"] = {
+    "engine": "kani",
+    "technique": "bounded model checking (Kani/CBMC SAT) of the compiled named-view iterators and import round trip",
+    "text": "For every table shape within the bounds and every zero pattern of the probabilities the solver shows that the ExactSizeIterator lengths equal the number of items subsequently yielded at every prefix, that every infoset appears exactly once in order with exactly its positive-probability actions (bit-identical probabilities; single-action infosets at 1.0), and that importing the view returns the same profile. Bounded: <= 2 multi-action + 2 single-action infosets per player, <= 3 actions.",
+    "note": "Kani/CBMC trusted. from_named (hash-based) is covered under C14 via the map model; solver output / truncated profiles are covered as 'any probabilities in [0,1]'.",
+}
